@@ -1,4 +1,5 @@
 import SifVerif.Proofs.Torn
+import SifVerif.Proofs.Fault
 /-!
 # C09 — interrupted modifications never damage other objects
 
@@ -424,5 +425,61 @@ theorem callsPrefix_crash (st : Store) (cs : List IOCall) : CrashBetween st cs (
     cases h : st.call c with
     | none => exact .stop _ _
     | some s1 => exact .next st s1 _ c cs h (ih s1)
+
+/-! ### a call of the backing store fails and the handle stays in use (Model/Fault.lean) -/
+
+/-- **C09, a failed call, the file**: the file left by an operation one of whose calls the store
+    failed (after `m` whole calls, `j` bytes into the failing one) is an interruption of the
+    operation's plan — so everything proved above about interruptions holds of it: -/
+theorem C09_failed_call_is_interruption (s : Img) (op : Op) (now : Int) (m j : Nat) (s' : Img)
+    (h : faultStep sha ph s op now m j = some s')
+    (hp : (s.st.callsPrefix ((plan sha ph s op now).1.take m)).2 = true) :
+    CrashOf s.st (plan sha ph s op now).1 s'.st :=
+  faultStep_crashOf sha ph s op now m j s' h hp
+
+/-- … every object the operation does not delete keeps its bytes … -/
+theorem C09_failed_call_content (s : Img) (W : WF s) (P : Placed s) (op : Op) (now : Int) (m j : Nat)
+    (s' : Img) (h : faultStep sha ph s op now m j = some s')
+    (hp : (s.st.callsPrefix ((plan sha ph s op now).1.take m)).2 = true)
+    (i : Nat) (d : RawDesc) (hd : s.rds[i]? = some d) (hu : d.used = true)
+    (hsv : (plan sha ph s op now).2.2 = .ok → survives ph op d) :
+    objContent s'.st d = objContent s.st d ∧ (0 < d.size → d.off + d.size ≤ s'.st.buf.length) :=
+  C09_bystander_content sha ph s W P op now i d hd hu hsv s'.st (faultStep_crashOf sha ph s op now m j s' h hp)
+
+/-- … and the file still loads, every slot the operation leaves alone holding the same descriptor -/
+theorem C09_failed_call_loads (s : Img) (W : WF s) (P : Placed s) (R : Ranges s) (op : Op) (now : Int)
+    (R' : (plan sha ph s op now).2.2 = .ok → Ranges (plan sha ph s op now).2.1)
+    (hne : s.rds ≠ []) (Cold : CleanSlots s.rds) (m j : Nat) (s' : Img)
+    (h : faultStep sha ph s op now m j = some s')
+    (hp : (s.st.callsPrefix ((plan sha ph s op now).1.take m)).2 = true) :
+    ∃ s2, loadContainer s'.st = .ok s2 ∧
+      ∀ (i : Nat) (d : RawDesc), s.rds[i]? = some d →
+        ((plan sha ph s op now).2.2 = .ok → (plan sha ph s op now).2.1.rds[i]? = some d) →
+        s2.rds[i]? = some d :=
+  C09_every_interruption sha ph s W P R op now R' hne Cold s'.st (faultStep_crashOf sha ph s op now m j s' h hp)
+
+/-- **C09, a failed call, the handle**: the handle's memory after the failure is that of the phase
+    the failing call belongs to (add.go / delete.go / set.go update the handle between groups of
+    calls), and the phases laid end to end are the plan (`phases_calls`): untouched while the data
+    object is written, the object committed while the table is written, and so on -/
+theorem C09_failed_call_handle (s : Img) (op : Op) (now : Int) (m j : Nat) (s' : Img)
+    (h : faultStep sha ph s op now m j = some s') :
+    ∃ p ∈ phases sha ph s op now, s'.h = p.mem.h ∧ s'.rds = p.mem.rds ∧ s'.minIDs = p.mem.minIDs :=
+  faultStep_mem sha ph s op now m j s' h
+
+/-- the hypotheses are met: SetMetadata on an image with one object — the store fails the table
+    write (call 1) after 10 bytes; the handle then has the new metadata, the header its old time -/
+def exFault : Img :=
+  { h := { (default : Hdr) with dfree := 0, dtotal := 1, doff := 128, dsize := 585, dataOff := 713, mtime := 5 },
+    rds := [{ zeroDesc with used := true, id := 1, dtype := dtGeneric }], minIDs := [(0, 1)],
+    st := { be := .buf, buf := zeros 713, pos := 0 } }
+
+example : ((faultStep (fun _ => []) (fun _ => none) exFault (.setMeta 1 (.raw [7]) (.at 9)) 0 1 10).map
+    (fun s' => (s'.h.mtime, (s'.rds.getD 0 zeroDesc).mtime, s'.st.buf.length))) = some (5, 9, 713) := by
+  decide +kernel
+
+theorem C09_phases_are_the_plan (s : Img) (op : Op) (now : Int) :
+    Phase.allCalls (phases sha ph s op now) = (plan sha ph s op now).1 :=
+  phases_calls sha ph s op now
 
 end Sif
